@@ -574,21 +574,28 @@ class XPathContext:
 
     def iter_followings(self) -> Iterator[ta.ChildNodeType]:
         """Iterator for 'following' forward axis."""
-        if isinstance(self.item, ElementNode):
+        if isinstance(self.item, XPathNode) and not isinstance(self.item, DocumentNode):
             status = self.item, self.axis
             self.axis = 'following'
 
-            descendants = set(self.item.iter_descendants())
-            position = self.item.position
+            # For attribute and namespace nodes the axis starts from the parent element
+            root: XPathNode = self.item
+            if isinstance(root, (AttributeNode, NamespaceNode)) and root.parent is not None:
+                root = root.parent
 
-            root = self.item
+            descendants: set[XPathNode] = set()
+            if isinstance(root, ElementNode):
+                descendants.update(root.iter_descendants())
+            position = root.position
+
             while isinstance(root.parent, ElementNode) and root is not self.root:
                 root = root.parent
 
-            for item in root.iter_descendants(with_self=False):
-                if position < item.position and item not in descendants:
-                    self.item = item
-                    yield item
+            if isinstance(root, ElementNode):
+                for item in root.iter_descendants(with_self=False):
+                    if position < item.position and item not in descendants:
+                        self.item = item
+                        yield item
 
             self.item, self.axis = status
 
